@@ -181,7 +181,8 @@ def replay_cvm(ctx, metrics, c, k):
                     # the offending value in every position, alone or shielded by NaNs (a NaN compares "equal" in a sort)
                     np.insert(s, len(s) // 2, np.nan), np.insert(np.append(s, 0.9), 1, np.nan), np.concatenate([[0.2, np.nan], [5.0], [np.nan, 0.7]]),
                     np.concatenate([s, [np.nan, 5.0, np.nan], s]), np.concatenate([[0.3], [np.nan, -2.0, np.nan], s, [0.6]]),
-                    np.insert(np.append(s, 0.5), 1, 1.5), np.insert(np.append(s, 0.5), 1, -1e-9), np.concatenate([[np.nan], s, [np.nan]])):
+                    np.insert(np.append(s, 0.5), 1, 1.5), np.insert(np.append(s, 0.5), 1, -1e-9), np.concatenate([[np.nan], s, [np.nan]]),
+                    np.insert(s, 0, np.nan), np.array([np.nan]), np.insert(np.append(s, 0.5), 0, np.nan), np.insert(s, 0, 1.5), np.insert(s, 0, -0.5)):
             try:
                 metrics.anderson_darling_test(bad)
                 ctx.violation("ad:rejection", "data %s accepted" % bad.tolist(), case)
